@@ -297,6 +297,10 @@ pub struct World {
     /// (task waker id, child): when that task waker is cloned for the first time, the stored
     /// waker of the child is invoked - a wake landing while the collection registers its task waker
     pub tw_hook: Option<(usize, u32)>,
+    /// re-entrancy: the next invocation of a task waker outside a poll drops the subject from inside
+    /// the notification (armed by Op::ArmDropOnWake; the driver provides the pointer while it applies a wake)
+    pub drop_on_wake_armed: bool,
+    pub drop_on_wake_fired: bool,
     // zero-sized futures: identity is the slot (waker data pointer) they are polled in
     pub z_unbound: std::collections::VecDeque<u32>,
     pub z_bound: Vec<(usize, u32)>,
@@ -359,6 +363,8 @@ impl World {
             task_wakes_total: 0,
             env_wake_depth: 0,
             tw_hook: None,
+            drop_on_wake_armed: false,
+            drop_on_wake_fired: false,
             z_unbound: std::collections::VecDeque::new(),
             z_bound: Vec::new(),
             z_created: 0,
@@ -720,8 +726,29 @@ unsafe fn tw_clone(d: *const ()) -> RawWaker {
     }
     RawWaker::new(d, &TASK_VTABLE)
 }
+thread_local! {
+    /// set by the driver while it applies an environment wake: the task waker may drop the subject through it
+    pub static DROP_HOOK: Cell<Option<fn()>> = const { Cell::new(None) };
+}
 unsafe fn tw_wake(d: *const ()) {
-    callback(|| w(|w| w.task_woken(d as usize)))
+    callback(|| {
+        let fire = w(|w| {
+            w.task_woken(d as usize);
+            if w.drop_on_wake_armed && w.cpoll_depth == 0 {
+                w.drop_on_wake_armed = false;
+                w.drop_on_wake_fired = true;
+                true
+            } else {
+                false
+            }
+        });
+        if fire {
+            if let Some(f) = DROP_HOOK.with(|h| h.get()) {
+                w(|w| w.logf(|| "    (the task waker drops the collection from inside the notification)".to_string()));
+                f();
+            }
+        }
+    })
 }
 unsafe fn tw_drop(_d: *const ()) {}
 
